@@ -42,7 +42,7 @@ Valid(m) == m["lo"] <= m["hi"] /\ RgOK(m["rg"])
 
 (* change maps: partial functions AllNames -> Inputs (only sensible inputs per name) *)
 InputsOf(n) == CASE n \in {"lo", "hi"} -> Vals \cup {Garbage}
-                 [] n = "rg" -> Vals \cup {Garbage, Oor}
+                 [] n = "rg" -> {CHOOSE v \in Vals : TRUE, Garbage, Oor}
                  [] OTHER -> {CHOOSE v \in Vals : TRUE}
 Changes == UNION {[D -> Inputs] : D \in SUBSET AllNames}
 SaneChanges == {ch \in Changes : \A n \in DOMAIN ch : ch[n] \in InputsOf(n)}
@@ -61,8 +61,8 @@ Accepts(caller, ch) == caller = Owner /\ WellFormed(ch) /\ Valid(Apply(settings,
 Update(caller, ch) ==
   /\ ~TwoPhase
   /\ settings' = IF Accepts(caller, ch) THEN Apply(settings, ch) ELSE settings
-  /\ last' = [kind |-> "update", caller |-> caller, ch |-> ch, before |-> settings, pbefore |-> pending,
-              ok |-> Accepts(caller, ch)]
+  /\ last' = [kind |-> "update", byOwner |-> caller = Owner, wf |-> WellFormed(ch), before |-> settings,
+              pbefore |-> pending, target |-> Apply(settings, ch)]
   /\ UNCHANGED pending
 
 PendMerge(p, ch) == [n \in DOMAIN p \cup DOMAIN ch |-> IF n \in DOMAIN ch THEN ch[n] ELSE p[n]]
@@ -70,29 +70,28 @@ Stages(caller, ch) == caller = Owner /\ WellFormed(ch)
 Stage(caller, ch) ==
   /\ TwoPhase
   /\ pending' = IF Stages(caller, ch) THEN PendMerge(pending, ch) ELSE pending
-  /\ last' = [kind |-> "stage", caller |-> caller, ch |-> ch, before |-> settings, pbefore |-> pending,
-              ok |-> Stages(caller, ch)]
+  /\ last' = [kind |-> "stage", byOwner |-> caller = Owner, wf |-> WellFormed(ch), before |-> settings,
+              pbefore |-> pending, target |-> settings]
   /\ UNCHANGED settings
 Commit(caller) ==
   /\ TwoPhase
   /\ settings' = IF Valid(Apply(settings, pending)) THEN Apply(settings, pending) ELSE settings
-  /\ last' = [kind |-> "commit", caller |-> caller, ch |-> pending, before |-> settings, pbefore |-> pending,
-              ok |-> Valid(Apply(settings, pending))]
+  /\ last' = [kind |-> "commit", byOwner |-> caller = Owner, wf |-> TRUE, before |-> settings,
+              pbefore |-> pending, target |-> Apply(settings, pending)]
   /\ UNCHANGED pending
 
 Next == \/ \E c \in Callers, ch \in SaneChanges : Update(c, ch) \/ Stage(c, ch)
         \/ \E c \in Callers : Commit(c)
 Spec == Init /\ [][Next]_vars
 
-(* ---- the property ---- *)
-(* a transaction of anybody but the owner changes nothing that is his to decide *)
-OwnerOnly == (last.kind \in {"update", "stage"} /\ last.caller # Owner) => (settings = last.before /\ pending = last.pbefore)
+(* ---- the property (last = what the latest transaction was and what it found) ---- *)
+(* a transaction of anybody but the owner changes nothing that is the owner's to decide *)
+OwnerOnly == (last.kind \in {"update", "stage"} /\ ~last.byOwner) => (settings = last.before /\ pending = last.pbefore)
 (* one bad entry rejects the whole map *)
-AllOrNothing == (last.kind \in {"update", "stage"} /\ ~WellFormed(last.ch)) => (settings = last.before /\ pending = last.pbefore)
-Atomic == last.kind # "none" => settings \in {last.before, Apply(last.before, last.ch)}
+AllOrNothing == (last.kind \in {"update", "stage"} /\ ~last.wf) => (settings = last.before /\ pending = last.pbefore)
+(* never a partial application; a commit applies exactly what the owner staged *)
+Atomic == last.kind # "none" => settings \in {last.before, last.target}
 (* the settings in force always pass validation; immutable names keep their value *)
 AlwaysValid == Valid(settings)
 ImmutableKept == \A n \in Names : ~Mutable(n) => settings[n] = Init0[n]
-(* what a commit applies is what the owner staged *)
-CommitAppliesStaged == last.kind = "commit" => settings \in {last.before, Apply(last.before, last.pbefore)}
 =============================================================================
